@@ -69,6 +69,20 @@ pub const LEAVES: &[(&str, &str)] = &[
     ("F:unset-readonly", "readonly ro2; unset ro2"),
 ];
 
+/// Contexts a command sequence is run in. The fault leaves end in different ways (status, control flow,
+/// internal error) and each way has to unwind whatever the context pushed.
+pub const CONTEXTS: &[(&str, &str, &str)] = &[
+    ("top", "", ""),
+    ("func", "wf() { local wl=1\n", "\n}; wt=tmp wf a b"),
+    ("sourced", "", ""), // the sequence is written to seq.sh and run as `wt=tmp . ./seq.sh a b`
+    ("debug-trap", "hf() {\n", "\n}; trap hf DEBUG; :; trap - DEBUG"),
+    ("err-trap", "hf() {\n", "\n}; trap hf ERR; vfalse; trap - ERR"),
+    ("func-in-loop", "wf() {\n", "\n}; for wi in 1 2; do wf $wi; done"),
+];
+
+/// Run after every iteration, in its own `run_string`: what the shell itself says about its stacks.
+const PROBE: &str = "echo \"P:${#FUNCNAME[@]}:$#:$*:${wt-unset}:${wl-unset}:${#BASH_SOURCE[@]}\"";
+
 fn count_fds() -> usize {
     std::fs::read_dir("/proc/self/fd").map(|d| d.count()).unwrap_or(0)
 }
@@ -105,6 +119,9 @@ pub fn worker() -> Handler {
         let dir = ip.fresh_dir();
         std::fs::write(dir.join("inc.sh"), "iv=1\n").unwrap();
         std::fs::write(dir.join("ret.sh"), "for k in 1 2; do return 4; done\n").unwrap();
+        if let Some(q) = v["seqfile"].as_str() {
+            std::fs::write(dir.join("seq.sh"), q).unwrap();
+        }
         let ipr: &Inproc = &ip;
         let out = ipr.rt.block_on(async {
             let mut sh = ipr.build_shell(&dir, &ShellCfg::default()).await;
@@ -133,6 +150,7 @@ pub fn worker() -> Handler {
             // iteration 1 (also the warm-up for lazily created runtime descriptors)
             let r1 = sh.run_string(script.clone(), &src, &params).await;
             let st1 = r1.map(|r| u8::from(r.exit_code) as i64).unwrap_or(-1);
+            let _ = sh.run_string(PROBE.to_string(), &src, &params).await;
             settle().await;
             let (out1, mut off) = read_from((0, 0));
             let fd1 = count_fds();
@@ -142,6 +160,7 @@ pub fn worker() -> Handler {
             for _ in 1..n {
                 let r = sh.run_string(script.clone(), &src, &params).await;
                 last_st = r.map(|r| u8::from(r.exit_code) as i64).unwrap_or(-1);
+                let _ = sh.run_string(PROBE.to_string(), &src, &params).await;
                 let (o, no) = read_from(off);
                 off = no;
                 last_out = o;
@@ -167,12 +186,23 @@ pub fn worker() -> Handler {
 
 pub fn run(tier: Tier, replay: Option<Value>) -> ! {
     let mut rep = Report::new("C18", tier, "exploration");
-    let mut cases: Vec<(String, Vec<String>, usize)> = vec![];
+    // (sequence, context index, tags, N)
+    let mut cases: Vec<(String, usize, Vec<String>, usize)> = vec![];
     if let Some(r) = &replay {
         rep.replay_mode = true;
         let c = r["case"].as_str().unwrap_or("");
-        let (n, s) = c.split_once('\n').unwrap_or(("N=50", c));
-        cases.push((s.to_string(), vec![], n.trim_start_matches("N=").parse().unwrap_or(50)));
+        let (head, s) = c.split_once('\n').unwrap_or(("N=50", c));
+        let mut n = 50;
+        let mut ctx = 0;
+        for w in head.split_whitespace() {
+            if let Some(x) = w.strip_prefix("N=") {
+                n = x.parse().unwrap_or(50);
+            }
+            if let Some(x) = w.strip_prefix("CTX=") {
+                ctx = CONTEXTS.iter().position(|c| c.0 == x).unwrap_or(0);
+            }
+        }
+        cases.push((s.to_string(), ctx, vec![], n));
     } else {
         let ns: Vec<usize> = match tier {
             Tier::Quick => vec![2, 50],
@@ -184,26 +214,50 @@ pub fn run(tier: Tier, replay: Option<Value>) -> ! {
             if s.len() == 3 && !LEAVES[s[0]].0.starts_with("F:") {
                 continue;
             }
-            for &n in &ns {
-                if n == 500 && s.len() > 1 {
+            for (ci, ctx) in CONTEXTS.iter().enumerate() {
+                // quick: pairs at top level and in a function body; every other context gets the single
+                // leaves and the pairs that start with a fault leaf
+                if tier == Tier::Quick && ci >= 2 && s.len() == 2 && !LEAVES[s[0]].0.starts_with("F:") {
                     continue;
                 }
-                if s.len() == 3 && n != 50 {
+                if s.len() == 3 && ci >= 2 {
                     continue;
                 }
-                let script: String = s.iter().map(|i| LEAVES[*i].1).collect::<Vec<_>>().join("\n");
-                let tags: Vec<String> = s.iter().map(|i| format!("leaf:{}", LEAVES[*i].0)).collect();
-                cases.push((script, tags, n));
+                // pairs outside the top-level context: one run of 6 iterations (a leak is linear in N)
+                let pair_elsewhere = ci >= 1 && s.len() == 2;
+                let ns_here: Vec<usize> = if pair_elsewhere { vec![tier.pick(6, 50)] } else { ns.clone() };
+                for &n in &ns_here {
+                    if n == 500 && s.len() > 1 {
+                        continue;
+                    }
+                    if s.len() == 3 && n != 50 {
+                        continue;
+                    }
+                    let seq: String = s.iter().map(|i| LEAVES[*i].1).collect::<Vec<_>>().join("\n");
+                    let mut tags: Vec<String> = s.iter().map(|i| format!("leaf:{}", LEAVES[*i].0)).collect();
+                    tags.push(format!("ctx:{}", ctx.0));
+                    cases.push((seq, ci, tags, n));
+                }
             }
         }
     }
+    let build = |seq: &str, ci: usize| -> (String, Option<String>) {
+        let c = CONTEXTS[ci];
+        if c.0 == "sourced" { ("wt=tmp . ./seq.sh a b".to_string(), Some(format!("{seq}\n"))) } else { (format!("{}{seq}{}", c.1, c.2), None) }
+    };
     let cfg = PoolCfg::new("c18").timeout_ms(120_000);
-    let bytes: Vec<Vec<u8>> = cases.iter().map(|(s, _, n)| json!({"s": s, "n": n}).to_string().into_bytes()).collect();
+    let bytes: Vec<Vec<u8>> = cases
+        .iter()
+        .map(|(s, ci, _, n)| {
+            let (script, seqfile) = build(s, *ci);
+            json!({"s": script, "n": n, "seqfile": seqfile}).to_string().into_bytes()
+        })
+        .collect();
     let outs = pool::run(&cfg, &bytes);
     for (i, o) in outs.iter().enumerate() {
         rep.evaluations += 1;
-        let (script, tags0, n) = &cases[i];
-        let desc = format!("N={n}\n{script}");
+        let (script, ci, tags0, n) = &cases[i];
+        let desc = if *ci == 0 { format!("N={n}\n{script}") } else { format!("N={n} CTX={}\n{script}", CONTEXTS[*ci].0) };
         let mut tags = tags0.clone();
         tags.sort();
         tags.dedup();
@@ -211,7 +265,7 @@ pub fn run(tier: Tier, replay: Option<Value>) -> ! {
             Outcome::Ok(b) => {
                 let v: Value = serde_json::from_slice(b).unwrap_or(Value::Null);
                 rep.observe(&format!("{}|{}|{}", v["fd1"], v["sc1"], v["cs1"]));
-                rep.nontrivial.insert(format!("{script}|{n}"));
+                rep.nontrivial.insert(format!("{script}|{ci}|{n}"));
                 if i % (cases.len() / 5).max(1) == 0 {
                     rep.sample(json!({"N": n, "sequence": script, "fds": v["fdn"], "scopes": v["scn"], "frames": v["csn"]}));
                 }
@@ -242,10 +296,11 @@ pub fn run(tier: Tier, replay: Option<Value>) -> ! {
     }
     rep.set("leaves", LEAVES.len() as u64);
     rep.rule = format!(
-        "all sequences of <= {} commands over {} leaves ({} fault leaves: redirect errors, unknown commands, bad substitution, readonly, return/break/continue out of nested constructs, failing functions with temporary assignments, failing source/here-doc/$()/pipeline/background/process substitution) repeated N in {{2, 50{}}} times in one in-process shell; compared with the state after one iteration",
+        "all sequences of <= {} commands over {} leaves ({} fault leaves: redirect errors, unknown commands, bad substitution, readonly, return/break/continue out of nested constructs, failing functions with temporary assignments, failing source/here-doc/$()/pipeline/background/process substitution) each run in {} contexts (top level; body of a function called with arguments and a temporary assignment; sourced file with arguments; function run as DEBUG-trap / ERR-trap handler; function called from a loop), repeated N in {{2, 50{}}} times (pairs outside the top-level context: N = 6 in the quick tier) in one in-process shell, followed each time by a probe of ${{#FUNCNAME[@]}} $# $* and the temporary/local names; compared with the state after one iteration",
         tier.pick(2, 3),
         LEAVES.len(),
         LEAVES.iter().filter(|l| l.0.starts_with("F:")).count(),
+        CONTEXTS.len(),
         if tier == Tier::Thorough { ", 500 (single leaves)" } else { "" }
     );
     rep.assumptions.push("the first iteration serves as warm-up for lazily created runtime descriptors; counts are taken after a short settle".into());
